@@ -356,6 +356,8 @@ def ghost_data(c):
         mg = R.micro_grads(c["spec"], x, y)
         norms = sorted(R.flat_norm(g) for g in mg)
         c["C"] = float(norms[len(norms) // 2] * c["Cq"]) if c["Cq"] < 1e5 else 1e6
+        if not c["C"] > 0:   # every per-sample gradient vanishes (dead ReLUs): the property needs max_grad_norm > 0
+            c["C"] = 1.0
     return x, y
 
 
@@ -488,6 +490,8 @@ def neighbour_oracle(cfg):
         mg = R.micro_grads(s, x, y)
         norms = sorted(R.flat_norm(g) for g in mg)
         cfg["C"] = float(norms[len(norms) // 2] * cfg.get("Cq", 0.8))
+        if not cfg["C"] > 0:   # every per-sample gradient vanishes (dead ReLUs): the property needs max_grad_norm > 0
+            cfg["C"] = 1.0
     C = cfg["C"]
     Cs = [C / math.sqrt(P) * (1 + 0.5 * (k % 2)) for k in range(P)] if clipping == "per_layer" else C
     kw = dict(gsm_mode=cfg["gsm_mode"], clipping=clipping, C=Cs, reduction=cfg["reduction"], max_phys=cfg.get("max_phys"), col=cfg.get("col", False))
